@@ -5,7 +5,11 @@ _BASE_EXPL = ("in-process differential: `jq::eval` vs `eval_generic::eval_with_c
               "disagreement is reported as EVALS-DISAGREE (always a violation); for programs inside the Lean model's fragment "
               "the common answer is additionally compared with the model's run line (coverage.in_fragment_rate); "
               "plus an order class: order-sensitive programs (sort, unique, min, max, group_by, < >) on arrays of objects over "
-              "one key set with permuted insertion orders, where only the model comparison can see a wrong shared comparator")
+              "one key set with permuted insertion orders, where only the model comparison can see a wrong shared comparator; "
+              "plus a text class: computed slice bounds (arithmetic, paths, variables, negative, null, fractional) on navigated "
+              "strings and arrays and the byte-vs-character sensitive builtins (length, utf8bytelength, explode/implode, "
+              "index/rindex/indices, ltrimstr/rtrimstr, split, @formats) on documents whose strings hold 2-, 3- and 4-byte "
+              "characters, combining marks and ZWJ sequences")
 
 
 def _verdict(req, impl, model):
@@ -42,7 +46,12 @@ CFG = {
                   "eval_fuel_mono proved: more fuel never changes a finished run) and to each other by differential "
                   "execution on grammar-generated programs; no theorem about the Rust code itself",
     "level_note": "Trusts the harness/driver correspondence machinery and the hand-written model (which follows jq 1.7.1's "
-                  "manual and builtin.jq); programs outside the modelled fragment are compared implementation-vs-implementation only.",
+                  "manual and builtin.jq); programs outside the modelled fragment are compared implementation-vs-implementation only. "
+                  "No model verdict (counted in coverage.skipped) also for: a run that computes an integral double with "
+                  "2^53 <= |x| inside the i64 range (succinctly continues with an i64 or an f64 depending on internal "
+                  "re-serialisation points the model does not track, C24-F23); an update-assignment whose path expression "
+                  "fails after some paths were produced unless both evaluation orders raise the same error; `??` in a program "
+                  "with a minus sign; `-<number>` inside a string interpolation.",
     "technique": "differential execution of two implementations + Lean model as third voice; Lean theorem eval_fuel_mono",
     "variants": [{"features": []}],
     "lean_modules": ["SuccinctlyVerif.Props.C23"],
